@@ -130,6 +130,13 @@ Fixpoint scope_dec (fuel : nat) (t : ty) : bool :=
        else
          seq_tags_ok (map (fun im => (may_be_absent (length root) (fst im) (snd im),
                                       outer_tags e f (m_ty (snd im)))) (indexed 0 ms)) &&
+         (* finding sequence-retry-steals-addition: a skipped root component is
+            retried against the encodings of the additions *)
+         forallb (fun m => match m_opt m with
+                           | Mandatory => true
+                           | _ => forallb (fun a => disjoint (outer_tags e f (m_ty m)) (outer_tags e f (m_ty a)))
+                                          (flat_additions ext)
+                           end) root &&
          forallb (fun im => negb (may_be_absent (length root) (fst im) (snd im) &&
                                   greedy_choice f (m_ty (snd im)))) (indexed 0 ms))
     | TSeqOf _ el _ => scope_dec f el
